@@ -77,11 +77,14 @@ pub struct Cmd {
     /// the reader of the stderr pipe goes away after taking this many bytes (a log collector that dies)
     #[serde(default)]
     pub stderr_reader_leaves_after: Option<usize>,
+    /// with `stdin_path`: the descriptor the child inherits already stands at this offset (the parent consumed a header)
+    #[serde(default)]
+    pub stdin_offset: Option<u64>,
 }
 
 impl Cmd {
     pub fn new(args: &[&str]) -> Cmd {
-        Cmd { args: args.iter().map(|a| a.as_bytes().to_vec()).collect(), env: vec![], stdin: StdinSpec::Null, stdout_file: None, stdout_closed_pipe: false, stdin_path: None, fsize_limit: None, pty: None, stdin_splits: vec![], stdout_nonblock_slow: None, env_bytes: vec![], stdout_reader_leaves_after: None, stdin_nonblock: false, stdin_socket_reset: None, stderr_reader_leaves_after: None }
+        Cmd { args: args.iter().map(|a| a.as_bytes().to_vec()).collect(), env: vec![], stdin: StdinSpec::Null, stdout_file: None, stdout_closed_pipe: false, stdin_path: None, fsize_limit: None, pty: None, stdin_splits: vec![], stdout_nonblock_slow: None, env_bytes: vec![], stdout_reader_leaves_after: None, stdin_nonblock: false, stdin_socket_reset: None, stderr_reader_leaves_after: None, stdin_offset: None }
     }
     pub fn env(mut self, k: &str, v: &str) -> Cmd {
         self.env.push((k.to_string(), v.to_string()));
@@ -259,7 +262,11 @@ pub fn run_limit(cmd: &Cmd, cwd: &Path, limit: Duration) -> Out {
         }
     }
     if let Some(pth) = &cmd.stdin_path {
-        let fh = std::fs::File::open(cwd.join(pth)).expect("stdin path");
+        let mut fh = std::fs::File::open(cwd.join(pth)).expect("stdin path");
+        if let Some(off) = cmd.stdin_offset {
+            use std::io::Seek;
+            fh.seek(std::io::SeekFrom::Start(off)).expect("seek stdin");
+        }
         c.stdin(fh);
     }
     let mut nb_read_end: Option<std::fs::File> = None;
